@@ -14,7 +14,9 @@ fn push(rep: &mut Report, o: EnumOutcome) {
 
 pub fn c07(rep: &mut Report, tier: &str) {
     let quick = tier == "quick";
-    push(rep, c07_lines(if quick { 9 } else { 11 }));
+    push(rep, c07_lines(&C07_SIGMA, if quick { 9 } else { 11 }));
+    // bytes that are white space in Latin-1 occur inside ordinary multi-byte characters
+    push(rep, c07_lines(&C07_SIGMA2, if quick { 7 } else { 9 }));
     push(rep, c07_typed(if quick { 6 } else { 8 }));
     push(rep, c07_roundtrip(if quick { 3 } else { 4 }, 2));
     push(rep, c07_roundtrip(2, if quick { 3 } else { 4 }));
